@@ -85,7 +85,19 @@ func c12Eval(count uint32, hs []h32, ps []*chainhash.Hash, flags []byte) (string
 		return why, fmt.Errorf("ExtractMatches succeeded but BadTree() is true")
 	}
 	// extracting again from the same object must not produce a different story: it either fails or
-	// reproduces the same root and the same match list
+	// reproduces the same root and the same match list - whatever the caller did with the root it was given
+	mine := false // a root that was not computed is the message's own hash object (one-node trees): that one is left alone
+	for _, p := range ps {
+		if p == got {
+			mine = true
+		}
+	}
+	if count%2 == 1 && !mine {
+		for i, j := 0, len(got)-1; i < j; i, j = i+1, j-1 { // e.g. turned into display order, in place
+			got[i], got[j] = got[j], got[i]
+		}
+		got[0] ^= 0x80
+	}
 	if again := pb.ExtractMatches(); again != nil {
 		gm2, gi2 := pb.GetMatches(), pb.GetItems()
 		if h32(*again) != root || len(gm2) != len(matches) || len(gi2) != len(matches) {
